@@ -586,6 +586,43 @@ func sweepInstance(text string, n int) string {
 	return r.Replace(text)
 }
 
+// ---- two-parameter sweep: two repeated parts in different roles, each at every size of a boundary set ----
+//
+// A buffer shared by two lists, a counter that one construct advances and another one reads, a look-ahead whose reach depends on
+// what precedes it: such thresholds need two sizes at once. Each template is two sweep templates joined by "\x00"; the first is
+// instantiated with a, the second with b, for every (a, b) in sweep2Sizes x sweep2Sizes.
+
+var sweep2Sizes = []int{0, 1, 2, 3, 7, 8, 9, 15, 16, 17, 31, 32, 33, 63, 64, 65, 127, 128, 129, 255, 256, 257}
+
+var sweep2Templates = []struct{ entry, text string }{
+	{"ParseExpr", "f(%L) + \x00g(%L)"}, {"ParseExpr", "(%L) IN (\x00%T)"}, {"ParseExpr", "[%L][OFFSET(1 \x00%P)]"}, {"ParseExpr", "STRUCT<%F>(\x00%L)"},
+	{"ParseExpr", "%(1%) + \x00%(2%)"}, {"ParseExpr", "((SELECT %L FROM t JOIN u ON TRUE) UNION ALL \x00(SELECT %L))"}, {"ParseExpr", "a %P IN \x00%((SELECT 1)%)"},
+	{"ParseQuery", "SELECT %L FROM t WHERE x IN (\x00%L)"}, {"ParseQuery", "WITH a AS (SELECT %L) SELECT \x00%L FROM a"}, {"ParseQuery", "SELECT * FROM %(t JOIN u ON TRUE%) WHERE a IN (\x00%L)"},
+	{"ParseQuery", "SELECT %L2 FROM t ORDER BY \x00%L2"}, {"ParseQuery", "@{a=1 %P} SELECT \x00%L"},
+	{"ParseDML", "INSERT INTO t (%L2) VALUES (\x00%L)"}, {"ParseDML", "UPDATE t SET a = 1 %P WHERE b IN (\x00%L)"}, {"ParseDML", "INSERT INTO t (a, b) VALUES %T THEN RETURN \x00%L2"},
+	{"ParseDDL", "CREATE TABLE t (%F) PRIMARY KEY (\x00%L2)"}, {"ParseDDL", "CREATE INDEX i ON t (%L2) STORING (\x00%L2)"}, {"ParseType", "STRUCT<%F, x \x00%[INT64%]>"},
+	{"ParseStatements", "%S;\nSELECT \x00%L"},
+}
+
+// forSweep2 calls f for this shard's share of (template, a, b).
+func forSweep2(ctx *harness.Ctx, f func(entry, src string, a, b int) bool) {
+	idx := 0
+	for _, tp := range sweep2Templates {
+		parts := strings.SplitN(tp.text, "\x00", 2)
+		for _, a := range sweep2Sizes {
+			for _, b := range sweep2Sizes {
+				idx++
+				if idx%ctx.Of != ctx.Shard {
+					continue
+				}
+				if !f(tp.entry, sweepInstance(parts[0], a)+sweepInstance(parts[1], b), a, b) {
+					return
+				}
+			}
+		}
+	}
+}
+
 // sweepSizes: every size 0..sweepMax (thorough: 0..1100), then the neighbourhoods of the powers of two above that
 // (2^k-1, 2^k, 2^k+1 up to 4096, thorough 16384). Nesting templates (%( and %[) stop at 1025: their cost is quadratic.
 func sweepSizes(ctx *harness.Ctx, text string) []int {
